@@ -55,21 +55,19 @@ def product_rules(chk, repo, rid):
         chk.ob(rid, w, 'apply_operator: the in-leg of the operator is contracted with the physical leg of the state',
                c['pairs'] == [tuple(sorted((f'{W}.1', f'{A}.0')))] and not c['conj'], f'{c["pairs"]}', key=f'{rid}|apply|pair')
         # labels
-        comp = [s for s in fi.node.body if isinstance(s, ast.Assign) and isinstance(s.value, ast.ListComp)]
+        comp = label_builders(fi)
         okl = False
         detail = ''
         if len(comp) == 1 and v.rank == 3:
-            lc = comp[0].value
-            g = lc.generators[0]
-            var = norm(g.target)
-            b = pmatch('qnumber_flatten((__a, __b))', lc.elt) or pmatch('qnumber_flatten([__a, __b])', lc.elt)
+            elt, var, it_ = comp[0]
+            b = pmatch('qnumber_flatten((__a, __b))', elt) or pmatch('qnumber_flatten([__a, __b])', elt)
             if b is not None:
                 lab = [b['__a'], b['__b']]
                 left = [(s_, t.replace(f'[{i}]', f'[{var}]')) for s_, t in charges(v.axes[1])]
                 right = [(s_, t.replace(f'[{i} + 1]', f'[{var}]')) for s_, t in charges(v.axes[2])]
                 okl = left == [(1, lab[0]), (1, lab[1])] and right == [(-1, lab[0]), (-1, lab[1])] and \
-                    norm(g.iter) == 'range(psi.nsites + 1)'
-                detail = f'labels flatten({lab}); merged left legs {left}; merged right legs {right}; range {norm(g.iter)}'
+                    norm(it_) == 'range(psi.nsites + 1)'
+                detail = f'labels flatten({lab}); merged left legs {left}; merged right legs {right}; range {norm(it_)}'
         chk.ob(rid, w, 'apply_operator: bond labels are flattened in the order in which the bond legs are merged '
                '(operator first), one label per bond 0..L', okl, detail, key=f'{rid}|apply|labels')
         ctor = [c_ for c_ in ast.walk(fi.node) if isinstance(c_, ast.Call) and norm(c_.func) == 'MPS']
@@ -179,7 +177,8 @@ def sum_rules(chk, repo, rid):
     n = 0
     from ..canon import canonical, ARITH_VALUE_ROLES
     for q, x0, x1, res, rank in (('mps.add_mps', 'mps0', 'mps1', 'mps', 3), ('mpo.add_mpo', 'op0', 'op1', 'op', 4)):
-        fi = canonical(repo.func(q), ARITH_VALUE_ROLES)
+        from ..normal import wrap, inline_site_aliases
+        fi = wrap(canonical(repo.func(q), ARITH_VALUE_ROLES), inline_site_aliases)
         rets = [r_ for r_ in ast.walk(fi.node) if isinstance(r_, ast.Return) and isinstance(r_.value, ast.Name)]
         if len(rets) == 1:
             res = rets[0].value.id
@@ -346,29 +345,10 @@ def ordering_rules(chk, repo, rid):
         chk.ob(rid, where(repo, fi, fi.node), f'{fi.name}: the {what} is accumulated left to right with the accumulated '
                f'tensor as first operand (site 0 most significant)', ok, '', key=f'{rid}|{q}|order')
         n += 1
-    fi = repo.func('opchain.OpChain.as_matrix')
-    k = [c for c in ast.walk(fi.node) if isinstance(c, ast.Call) and norm(c.func) == 'np.kron']
-    ok = len(k) == 1 and pmatch('np.kron(__acc, opmap[__o])', k[0]) is not None
-    if ok:
-        b = pmatch('np.kron(__acc, opmap[__o])', k[0])
-        lp = [l for l in ast.walk(fi.node) if isinstance(l, ast.For) and any(x is k[0] for x in ast.walk(l))]
-        ok = bool(lp) and norm(lp[0].iter) == 'self.oids' and norm(lp[0].target) == b['__o']
-    chk.ob(rid, where(repo, fi, fi.node), 'OpChain.as_matrix: operators are multiplied on from the right in site order (site of '
-           'the first operator most significant)', ok, '', key=f'{rid}|opchain|order')
-    fi = repo.func('opgraph._subgraph_as_matrix')
-    ks = [c for c in ast.walk(fi.node) if isinstance(c, ast.Call) and norm(c.func) == 'np.kron']
-    ifs = [s for s in ast.walk(fi.node) if isinstance(s, ast.If) and norm(s.test) == 'direction == 0']
-    ok = len(ks) == 2 and len(ifs) == 1 and \
-        any(pmatch('np.kron(op_sub, op_loc)', c) is not None for s in ifs[0].body for c in ast.walk(s) if isinstance(c, ast.Call)) and \
-        any(pmatch('np.kron(op_loc, op_sub)', c) is not None for s in ifs[0].orelse for c in ast.walk(s) if isinstance(c, ast.Call))
-    chk.ob(rid, where(repo, fi, fi.node), '_subgraph_as_matrix: walking downstream the local operator is the more significant '
-           'factor, walking upstream the less significant one', ok, '', key=f'{rid}|subgraph|order')
-    fi = repo.func('optree._subtree_as_matrix')
-    ks = [c for c in ast.walk(fi.node) if isinstance(c, ast.Call) and norm(c.func) == 'np.kron']
-    ok = bool(ks) and pmatch('np.kron(edge.coeff * opmap[edge.oid], op_subtree)', ks[0]) is not None
-    chk.ob(rid, where(repo, fi, fi.node), '_subtree_as_matrix: the local operator (with its coefficient) is the more significant '
-           'factor of every subtree', ok, '', key=f'{rid}|subtree|order')
-    return n + 3
+    # chains, trees and graphs: every Kronecker product typed with the sites its factors act on (props/kronrule.py)
+    from . import kronrule
+    n += kronrule.analyse(chk, repo, rid, declare=False)
+    return n
 
 
 def aliasing_rules(chk, repo, rid):
@@ -483,3 +463,24 @@ def _shape_like(e):
         if isinstance(x, ast.Attribute) and x.attr in ('shape', 'ndim', 'size', 'nsites', 'qd', 'qD', 'bond_dims'):
             return True
     return isinstance(e, ast.Call) and norm(e.func) == 'len'
+
+
+def label_builders(fi):
+    """per-bond label expressions of a function, whichever way the list is built:
+    X = [E for v in R]   |   X = [] ; for v in R: X.append(E)        ->  [(E, v, R), ...]   (E contains a qnumber_flatten)"""
+    out = []
+    for s_ in fi.node.body:
+        if isinstance(s_, ast.Assign) and isinstance(s_.value, ast.ListComp) and len(s_.value.generators) == 1 and \
+                'qnumber_flatten' in norm(s_.value.elt):
+            g = s_.value.generators[0]
+            out.append((s_.value.elt, norm(g.target), g.iter))
+        if isinstance(s_, ast.For) and isinstance(s_.target, ast.Name):
+            for b in s_.body:
+                if isinstance(b, ast.Expr) and isinstance(b.value, ast.Call) and isinstance(b.value.func, ast.Attribute) and \
+                        b.value.func.attr == 'append' and len(b.value.args) == 1 and 'qnumber_flatten' in norm(b.value.args[0]):
+                    lst = norm(b.value.func.value)
+                    init = [x for x in fi.node.body if isinstance(x, ast.Assign) and norm(x.targets[0]) == lst and
+                            isinstance(x.value, ast.List) and not x.value.elts and x.lineno < s_.lineno]
+                    if init:
+                        out.append((b.value.args[0], s_.target.id, s_.iter))
+    return out
